@@ -6,17 +6,25 @@
       [curve_diff2_min_tie_refuted].
    2. Pow: [chain_node_pow_pos] (base > 0, any real exponent), [chain_node_pow_nat] (natural exponent
       >= 1, any base), [chain_node_pow_zero] (exponent 0, the rule that returns zeros).
+   3. reductions along a dimension: [curve_diffN] (differentiability of a function of N values along
+      families of curves), [curve_diffN_ext] (max / min with a unique strict extremum), [curve_diffN_var],
+      [curve_diffN_std] (variance > 0); [chain_node_fibrewise] (a node whose elements are functions of
+      gathered operand elements, gather-form Jacobian), [chain_node_along] (fibres along [dim], Jacobian
+      in the closed form  [del dim i = j] * cc i  the rules use), [chain_node_varAlong],
+      [chain_node_stdAlong], [chain_node_extAlong] (MaxAlong / MinAlong).
    [node_ok3] / [node_ok3_chain] / [chain_hyp_of_nodes3]: the per-node case analysis of TotalDeriv2P.v
    extended by these constructors.
    Module [TotalDeriv3Example]: heaps built by the model's own h_* functions, all hypotheses of
-   bp_total_derivative discharged. *)
+   bp_total_derivative discharged:  y = x.ElMax(c), c untracked ([elmax_gradient]: [c < x]);
+   y = x.Pow(a) ([pow_gradient]; [cube_gradient]: 3 x² at any x; [rpower_gradient]: a x^(a-1), x > 0);
+   y = x.VarAlong(0) ([var_gradient]: (x0 - x1, x1 - x0));  y = x.MaxAlong(0) ([maxalong_gradient]: (1, 0)). *)
 From Coq Require Import List Arith ZArith Bool Lia Reals Lra.
 From Coquelicot Require Import Coquelicot.
 From Qeep Require Import Model.Scalar Model.Nd Model.Fill Model.Data Model.Valid Model.Api Model.Grad Model.Backprop.
 From Qeep Require Import Proofs.NdP Proofs.ElemP Proofs.ArithP Proofs.BackpropP.
 From Qeep Require Import Spec.RScalar Spec.ScalarDeriv Spec.VjpSpec.
 From Qeep Require Import Proofs.VjpGatherP Proofs.VjpElemP Proofs.TotalDerivP Proofs.TotalDeriv2P.
-From Qeep Require Proofs.ReduceP Proofs.VjpReduceP.   (* not imported: VjpReduceP has its own (convertible) sumN *)
+From Qeep Require Proofs.ReduceP Proofs.ReduceRP Proofs.VjpReduceP.   (* not imported: VjpReduceP has its own (convertible) sumN *)
 Import ListNotations.
 Local Open Scope R_scope.
 
@@ -256,79 +264,10 @@ Proof.
   - apply (ops_diff_single dm n e He Ht Hd).
 Qed.
 
-(* ================================================================================= *)
-(* 3. [chain_hyp] for a whole graph: the case analysis of TotalDeriv2P.v extended     *)
-(* ================================================================================= *)
-Inductive node_ok3 (n : nat) : Prop :=
-| ok3_base : node_ok h D val n -> node_ok3 n
-| ok3_elmax (e1 e2 : nat * @rule R) :
-    edgesOf h n = [e1; e2] ->
-    dimsOf h (fst e1) = dimsOf h n -> dimsOf h (fst e2) = dimsOf h n ->
-    (forall i j, D n e1 i j = if idx_eqb i j then selgt (val 0 (fst e1) j) (val 0 (fst e2) j) else 0) ->
-    (forall i j, D n e2 i j = if idx_eqb i j then selgt (val 0 (fst e2) j) (val 0 (fst e1) j) else 0) ->
-    (forall t j, validIdx (dimsOf h n) j -> val t n j = Rmax (val t (fst e1) j) (val t (fst e2) j)) ->
-    (forall j, validIdx (dimsOf h n) j -> val 0 (fst e1) j <> val 0 (fst e2) j) ->
-    (trackedOf h (fst e1) = false -> frozen h val (fst e1)) ->
-    (trackedOf h (fst e2) = false -> frozen h val (fst e2)) ->
-    node_ok3 n
-| ok3_elmin (e1 e2 : nat * @rule R) :
-    edgesOf h n = [e1; e2] ->
-    dimsOf h (fst e1) = dimsOf h n -> dimsOf h (fst e2) = dimsOf h n ->
-    (forall i j, D n e1 i j = if idx_eqb i j then selgt (val 0 (fst e2) j) (val 0 (fst e1) j) else 0) ->
-    (forall i j, D n e2 i j = if idx_eqb i j then selgt (val 0 (fst e1) j) (val 0 (fst e2) j) else 0) ->
-    (forall t j, validIdx (dimsOf h n) j -> val t n j = Rmin (val t (fst e1) j) (val t (fst e2) j)) ->
-    (forall j, validIdx (dimsOf h n) j -> val 0 (fst e1) j <> val 0 (fst e2) j) ->
-    (trackedOf h (fst e1) = false -> frozen h val (fst e1)) ->
-    (trackedOf h (fst e2) = false -> frozen h val (fst e2)) ->
-    node_ok3 n
-| ok3_pow_pos (e : nat * @rule R) (a : R) :
-    edgesOf h n = [e] -> trackedOf h (fst e) = true -> dimsOf h (fst e) = dimsOf h n ->
-    (forall i j, D n e i j = if idx_eqb i j then a * Rpow (val 0 (fst e) j) (a - 1) else 0) ->
-    (forall t j, validIdx (dimsOf h n) j -> val t n j = Rpow (val t (fst e) j) a) ->
-    (forall j, validIdx (dimsOf h n) j -> 0 < val 0 (fst e) j) ->
-    node_ok3 n
-| ok3_pow_nat (e : nat * @rule R) (a : R) (k : nat) :
-    a = INR k -> (1 <= k)%nat ->
-    edgesOf h n = [e] -> trackedOf h (fst e) = true -> dimsOf h (fst e) = dimsOf h n ->
-    (forall i j, D n e i j = if idx_eqb i j then a * Rpow (val 0 (fst e) j) (a - 1) else 0) ->
-    (forall t j, validIdx (dimsOf h n) j -> val t n j = Rpow (val t (fst e) j) a) ->
-    node_ok3 n
-| ok3_pow_zero (e : nat * @rule R) :
-    edgesOf h n = [e] -> trackedOf h (fst e) = true -> dimsOf h (fst e) = dimsOf h n ->
-    (forall i j, D n e i j = 0) ->
-    (forall t j, validIdx (dimsOf h n) j -> val t n j = Rpow (val t (fst e) j) 0) ->
-    node_ok3 n.
-
-Lemma node_ok3_chain (dm : nat -> assignment) n :
-  node_ok3 n -> ops_diff h val dm n ->
-  forall j, validIdx (dimsOf h n) j -> is_derive (fun t => val t n j) 0 (Jt h D dm n j).
-Proof.
-  intros Hok Hd.
-  destruct Hok as [Hb
-                  | e1 e2 He Hd1 Hd2 HD1 HD2 Hv Hne Hz1 Hz2
-                  | e1 e2 He Hd1 Hd2 HD1 HD2 Hv Hne Hz1 Hz2
-                  | e a He Ht Hdim HD Hv Hpos
-                  | e a k Ea Hk He Ht Hdim HD Hv
-                  | e He Ht Hdim HD Hv].
-  - apply (node_ok_chain h D val dm n Hb Hd).
-  - apply (chain_node_elmax dm n e1 e2 He Hd1 Hd2 HD1 HD2 Hv Hne Hz1 Hz2 Hd).
-  - apply (chain_node_elmin dm n e1 e2 He Hd1 Hd2 HD1 HD2 Hv Hne Hz1 Hz2 Hd).
-  - apply (chain_node_pow_pos dm n e a He Ht Hdim HD Hv Hpos Hd).
-  - apply (chain_node_pow_nat dm n e a k Ea Hk He Ht Hdim HD Hv Hd).
-  - apply (chain_node_pow_zero dm n e He Ht Hdim HD Hv Hd).
-Qed.
-
-Theorem chain_hyp_of_nodes3 (root x : nat) (dl : assignment) :
-  (forall n, In n (topoOrder h root) -> (x < n)%nat -> node_ok3 n) ->
-  chain_hyp h root D x dl val.
-Proof.
-  intros Hok n Hn Hgt Hop. apply (node_ok3_chain (tang h D x dl) n (Hok n Hn Hgt)). exact Hop.
-Qed.
-
 End Chain3.
 
 (* ================================================================================= *)
-(* 3b. reductions along a dimension: VarAlong, StdAlong, MaxAlong, MinAlong           *)
+(* 3. reductions along a dimension: VarAlong, StdAlong, MaxAlong, MinAlong            *)
 (* ================================================================================= *)
 Module VR := Qeep.Proofs.VjpReduceP.
 Module RP := Qeep.Proofs.ReduceP.
@@ -632,6 +571,132 @@ Proof.
     rewrite RP.del_ins, RP.nth_ins by lia. reflexivity.
   - intros j Hj. destruct (Hguard j Hj) as [Hks Hst].
     apply (curve_diffN_ext sg _ M _ (ks j) Hs HM Hks). exact Hst.
+Qed.
+
+(* ================================================================================= *)
+(* 3c. [chain_hyp] for a whole graph: the case analysis of TotalDeriv2P.v extended    *)
+(* ================================================================================= *)
+Inductive node_ok3 (n : nat) : Prop :=
+| ok3_base : node_ok h D val n -> node_ok3 n
+| ok3_elmax (e1 e2 : nat * @rule R) :
+    edgesOf h n = [e1; e2] ->
+    dimsOf h (fst e1) = dimsOf h n -> dimsOf h (fst e2) = dimsOf h n ->
+    (forall i j, D n e1 i j = if idx_eqb i j then selgt (val 0 (fst e1) j) (val 0 (fst e2) j) else 0) ->
+    (forall i j, D n e2 i j = if idx_eqb i j then selgt (val 0 (fst e2) j) (val 0 (fst e1) j) else 0) ->
+    (forall t j, validIdx (dimsOf h n) j -> val t n j = Rmax (val t (fst e1) j) (val t (fst e2) j)) ->
+    (forall j, validIdx (dimsOf h n) j -> val 0 (fst e1) j <> val 0 (fst e2) j) ->
+    (trackedOf h (fst e1) = false -> frozen h val (fst e1)) ->
+    (trackedOf h (fst e2) = false -> frozen h val (fst e2)) ->
+    node_ok3 n
+| ok3_elmin (e1 e2 : nat * @rule R) :
+    edgesOf h n = [e1; e2] ->
+    dimsOf h (fst e1) = dimsOf h n -> dimsOf h (fst e2) = dimsOf h n ->
+    (forall i j, D n e1 i j = if idx_eqb i j then selgt (val 0 (fst e2) j) (val 0 (fst e1) j) else 0) ->
+    (forall i j, D n e2 i j = if idx_eqb i j then selgt (val 0 (fst e1) j) (val 0 (fst e2) j) else 0) ->
+    (forall t j, validIdx (dimsOf h n) j -> val t n j = Rmin (val t (fst e1) j) (val t (fst e2) j)) ->
+    (forall j, validIdx (dimsOf h n) j -> val 0 (fst e1) j <> val 0 (fst e2) j) ->
+    (trackedOf h (fst e1) = false -> frozen h val (fst e1)) ->
+    (trackedOf h (fst e2) = false -> frozen h val (fst e2)) ->
+    node_ok3 n
+| ok3_pow_pos (e : nat * @rule R) (a : R) :
+    edgesOf h n = [e] -> trackedOf h (fst e) = true -> dimsOf h (fst e) = dimsOf h n ->
+    (forall i j, D n e i j = if idx_eqb i j then a * Rpow (val 0 (fst e) j) (a - 1) else 0) ->
+    (forall t j, validIdx (dimsOf h n) j -> val t n j = Rpow (val t (fst e) j) a) ->
+    (forall j, validIdx (dimsOf h n) j -> 0 < val 0 (fst e) j) ->
+    node_ok3 n
+| ok3_pow_nat (e : nat * @rule R) (a : R) (k : nat) :
+    a = INR k -> (1 <= k)%nat ->
+    edgesOf h n = [e] -> trackedOf h (fst e) = true -> dimsOf h (fst e) = dimsOf h n ->
+    (forall i j, D n e i j = if idx_eqb i j then a * Rpow (val 0 (fst e) j) (a - 1) else 0) ->
+    (forall t j, validIdx (dimsOf h n) j -> val t n j = Rpow (val t (fst e) j) a) ->
+    node_ok3 n
+| ok3_pow_zero (e : nat * @rule R) :
+    edgesOf h n = [e] -> trackedOf h (fst e) = true -> dimsOf h (fst e) = dimsOf h n ->
+    (forall i j, D n e i j = 0) ->
+    (forall t j, validIdx (dimsOf h n) j -> val t n j = Rpow (val t (fst e) j) 0) ->
+    node_ok3 n
+| ok3_fibrewise (e : nat * @rule R) (N : nat)
+        (s : list nat -> nat -> list nat) (phi : list nat -> (nat -> R) -> R) (c : list nat -> nat -> R) :
+    edgesOf h n = [e] -> trackedOf h (fst e) = true ->
+    (forall j k, validIdx (dimsOf h n) j -> (k < N)%nat -> validIdx (dimsOf h (fst e)) (s j k)) ->
+    (forall i j, validIdx (dimsOf h (fst e)) i -> validIdx (dimsOf h n) j ->
+       D n e i j = sumN N (fun k => if idx_eqb i (s j k) then c j k else 0)) ->
+    (forall t j, validIdx (dimsOf h n) j -> val t n j = phi j (fun k => val t (fst e) (s j k))) ->
+    (forall j, validIdx (dimsOf h n) j ->
+       curve_diffN N (phi j) (fun k => val 0 (fst e) (s j k)) (c j)) ->
+    node_ok3 n
+| ok3_varAlong (e : nat * @rule R) (dim : nat) :
+    edgesOf h n = [e] -> trackedOf h (fst e) = true ->
+    (dim < length (dimsOf h (fst e)))%nat -> dimsOf h n = RP.del dim (dimsOf h (fst e)) ->
+    (forall i j, validIdx (dimsOf h (fst e)) i -> validIdx (dimsOf h n) j ->
+       D n e i j = if idx_eqb (RP.del dim i) j
+                   then (if (nOfE e dim =? 1)%nat then 0
+                         else 2 / INR (nOfE e dim - 1) *
+                              (val 0 (fst e) i - VR.meanN (nOfE e dim) (VR.fib (val 0 (fst e)) dim (RP.del dim i))))
+                   else 0) ->
+    (forall t j, validIdx (dimsOf h n) j ->
+       val t n j = VR.varN (nOfE e dim) (VR.fib (val t (fst e)) dim j)) ->
+    node_ok3 n
+| ok3_stdAlong (e : nat * @rule R) (dim : nat) :
+    edgesOf h n = [e] -> trackedOf h (fst e) = true ->
+    (dim < length (dimsOf h (fst e)))%nat -> dimsOf h n = RP.del dim (dimsOf h (fst e)) ->
+    (forall i j, validIdx (dimsOf h (fst e)) i -> validIdx (dimsOf h n) j ->
+       D n e i j = if idx_eqb (RP.del dim i) j
+                   then (if (nOfE e dim =? 1)%nat then 0
+                         else 1 / INR (nOfE e dim - 1) *
+                              ((val 0 (fst e) i - VR.meanN (nOfE e dim) (VR.fib (val 0 (fst e)) dim (RP.del dim i)))
+                               / val 0 n (RP.del dim i)))
+                   else 0) ->
+    (forall t j, validIdx (dimsOf h n) j ->
+       val t n j = sqrt (VR.varN (nOfE e dim) (VR.fib (val t (fst e)) dim j))) ->
+    ((1 < nOfE e dim)%nat -> forall j, validIdx (dimsOf h n) j ->
+       0 < VR.varN (nOfE e dim) (VR.fib (val 0 (fst e)) dim j)) ->
+    node_ok3 n
+| ok3_extAlong (e : nat * @rule R) (dim : nat) (sg : R) (M : (nat -> R) -> R) (ks : list nat -> nat) :
+    sg = 1 \/ sg = -1 -> VR.is_ext sg (nOfE e dim) M ->
+    edgesOf h n = [e] -> trackedOf h (fst e) = true ->
+    (dim < length (dimsOf h (fst e)))%nat -> dimsOf h n = RP.del dim (dimsOf h (fst e)) ->
+    (forall i j, validIdx (dimsOf h (fst e)) i -> validIdx (dimsOf h n) j ->
+       D n e i j = if idx_eqb (RP.del dim i) j
+                   then (if (nth dim i 0 =? ks (RP.del dim i))%nat then 1 else 0) else 0) ->
+    (forall t j, validIdx (dimsOf h n) j -> val t n j = M (VR.fib (val t (fst e)) dim j)) ->
+    (forall j, validIdx (dimsOf h n) j -> (ks j < nOfE e dim)%nat /\
+       forall k, (k < nOfE e dim)%nat -> k <> ks j ->
+         sg * val 0 (fst e) (RP.ins dim k j) < sg * val 0 (fst e) (RP.ins dim (ks j) j)) ->
+    node_ok3 n.
+
+Lemma node_ok3_chain (dm : nat -> assignment) n :
+  node_ok3 n -> ops_diff h val dm n ->
+  forall j, validIdx (dimsOf h n) j -> is_derive (fun t => val t n j) 0 (Jt h D dm n j).
+Proof.
+  intros Hok Hd.
+  destruct Hok as [Hb
+                  | e1 e2 He Hd1 Hd2 HD1 HD2 Hv Hne Hz1 Hz2
+                  | e1 e2 He Hd1 Hd2 HD1 HD2 Hv Hne Hz1 Hz2
+                  | e a He Ht Hdim HD Hv Hpos
+                  | e a k Ea Hk He Ht Hdim HD Hv
+                  | e He Ht Hdim HD Hv
+                  | e N s phi c He Ht Hs HD Hv Hphi
+                  | e dim He Ht Hl Hdn HD Hv
+                  | e dim He Ht Hl Hdn HD Hv Hpos
+                  | e dim sg M ks Hsg HM He Ht Hl Hdn HD Hv Hguard].
+  - apply (node_ok_chain h D val dm n Hb Hd).
+  - apply (chain_node_elmax h D val dm n e1 e2 He Hd1 Hd2 HD1 HD2 Hv Hne Hz1 Hz2 Hd).
+  - apply (chain_node_elmin h D val dm n e1 e2 He Hd1 Hd2 HD1 HD2 Hv Hne Hz1 Hz2 Hd).
+  - apply (chain_node_pow_pos h D val dm n e a He Ht Hdim HD Hv Hpos Hd).
+  - apply (chain_node_pow_nat h D val dm n e a k Ea Hk He Ht Hdim HD Hv Hd).
+  - apply (chain_node_pow_zero h D val dm n e He Ht Hdim HD Hv Hd).
+  - apply (chain_node_fibrewise dm n e N s phi c He Ht Hs HD Hv Hphi Hd).
+  - apply (chain_node_varAlong dm n e dim He Ht Hl Hdn HD Hv Hd).
+  - apply (chain_node_stdAlong dm n e dim He Ht Hl Hdn HD Hv Hpos Hd).
+  - apply (chain_node_extAlong dm n e dim sg M ks Hsg HM He Ht Hl Hdn HD Hv Hguard Hd).
+Qed.
+
+Theorem chain_hyp_of_nodes3 (root x : nat) (dl : assignment) :
+  (forall n, In n (topoOrder h root) -> (x < n)%nat -> node_ok3 n) ->
+  chain_hyp h root D x dl val.
+Proof.
+  intros Hok n Hn Hgt Hop. apply (node_ok3_chain (tang h D x dl) n (Hok n Hn Hgt)). exact Hop.
 Qed.
 
 End Chain4.
@@ -1046,6 +1111,309 @@ Proof.
   split; [rewrite G1, (Rpow_pos _ _ Hp1); reflexivity|]. exact Hd.
 Qed.
 
+(* ---------------------------------------------------------------------------------- *)
+(* 4c. y = x.VarAlong(0)  for x : [2]  (y a scalar: the unbiased sample variance (x0 - x1)² / 2);
+       gradient (x0 - x1, x1 - x0) *)
+Section Var.
+
+Definition vv : tensor R := mkT [] (Sc (RP.varL [x0; x1])).
+
+Definition hV : @heap R :=
+  [mkNode xv true false None [] None;
+   mkNode vv true false None [(0%nat, RVarAlong 1 0 0)] None].
+
+Example hV_built :
+  let '(h0, x) := leaf [] xv true None in h_reduceAlong h0 RdVar x 0%Z None = (hV, Ok 1%nat).
+Proof. reflexivity. Qed.
+
+Example hV_order : topoOrder hV 1 = [1; 0]%nat.
+Proof. reflexivity. Qed.
+
+Example hV_run : exists h' lg, bp_topo rd ids hV 1 = (h', lg, Ok tt).
+Proof. eexists. eexists. vm_compute. reflexivity. Qed.
+
+Lemma hV_rules_own : rules_own hV.
+Proof.
+  intros c n e Hn He. destruct c as [|[|c]]; cbn in Hn.
+  - inversion Hn; subst n. destruct He.
+  - inversion Hn; subst n. destruct He as [<-|[]]. reflexivity.
+  - destruct c; discriminate.
+Qed.
+
+Lemma hV_wf_heap : wf_heap hV.
+Proof.
+  intros c n e Hn He. destruct c as [|[|c]]; cbn in Hn.
+  - inversion Hn; subst n. destruct He.
+  - inversion Hn; subst n. destruct He as [<-|[]]. cbn. lia.
+  - destruct c; discriminate.
+Qed.
+
+Lemma sumIdx0 (f : assignment) : sumIdx [] f = f [].
+Proof. unfold sumIdx. cbn. ring. Qed.
+
+Lemma wf_vv : wf vv.
+Proof. split; cbn; [exact I|constructor]. Qed.
+
+(* the coefficient of the RVarAlong rule (rvar_eval), N = 2 *)
+Definition cV (x : assignment) (i : list nat) : R :=
+  if (2 =? 1)%nat then 0
+  else 2 / INR (2 - 1) * (x i - VR.meanN 2 (VR.fib x 0 (RP.del 0 i))).
+Definition DV (c : nat) (e : nat * @rule R) (i j : list nat) : R :=
+  if idx_eqb (RP.del 0 i) j then cV (elt xv) i else 0.
+
+Lemma hV_jac : jac_hyp thr draw rd hV 1 DV.
+Proof.
+  intros c e Hc He Ht hh gc Hv Hg Wg Dg. rewrite hV_order in Hc.
+  destruct Hc as [<-|[<-|[]]].
+  - destruct He as [<-|[]]. cbn [fst snd].
+    assert (Hx : valOf hh 0 = Some xv) by (rewrite Hv; reflexivity).
+    destruct (VR.rvar_eval thr draw rd hh 1%nat 0%nat 0%nat xv gc Hx Hg (wf_vec2 _ _) Wg
+                ltac:(cbn; lia) Dg) as (g & Eg & Dgg & Wgg & Gg).
+    exists g. split; [exact Eg|]. split; [exact Dgg|]. split; [exact Wgg|].
+    intros i Hi. rewrite (Gg i Hi). change (dimsOf hV 1) with (@nil nat). rewrite sumIdx0.
+    change (dimsOf hV 0) with [2%nat] in Hi. unfold DV, cV.
+    destruct (valid2 i Hi) as [-> | ->]; reflexivity.
+  - destruct He.
+Qed.
+
+Definition valV (dl : assignment) (t : R) (n : nat) : assignment :=
+  match n with
+  | 0%nat => fun i => elt xv i + t * dl i
+  | _ => fun j => VR.varN 2 (VR.fib (fun i => elt xv i + t * dl i) 0 j)
+  end.
+
+Lemma hV_nodes (dl : assignment) n :
+  In n (topoOrder hV 1) -> (0 < n)%nat -> node_ok3 hV DV (valV dl) n.
+Proof.
+  intros Hn Hgt. rewrite hV_order in Hn. destruct Hn as [<-|[<-|[]]]; [|lia].
+  apply (ok3_varAlong hV DV (valV dl) 1 (0%nat, RVarAlong 1 0 0) 0%nat); try reflexivity.
+  - cbn. lia.
+  - intros i j _ _. cbn [fst]. change (nth 0 (dimsOf hV 0) 0%nat) with 2%nat.
+    unfold DV, cV. destruct (idx_eqb (RP.del 0 i) j); [|reflexivity].
+    cbn [Nat.eqb]. f_equal.
+    rewrite (VR.meanN_ext 2 (VR.fib (valV dl 0 0) 0 (RP.del 0 i)) (VR.fib (elt xv) 0 (RP.del 0 i)))
+      by (intros k; unfold VR.fib, valV; ring).
+    unfold valV. ring.
+Qed.
+
+Lemma varN2 (v : nat -> R) : VR.varN 2 v = (v 0%nat - v 1%nat) ^ 2 / 2.
+Proof. unfold VR.varN, VR.meanN, VR.sumN, Qeep.Proofs.ReduceRP.Rsum. cbn. field. Qed.
+
+Lemma var_total_derivative (h' : @heap R) lg gx (dl : assignment) :
+  bp_topo rd ids hV 1 = (h', lg, Ok tt) -> gradOf h' 0 = Some gx ->
+  is_derive (fun t => ((x0 + t * dl [0%nat]) - (x1 + t * dl [1%nat])) ^ 2 / 2) 0
+            (elt gx [0%nat] * dl [0%nat] + elt gx [1%nat] * dl [1%nat]).
+Proof.
+  intros E Egx.
+  assert (H : is_derive (fun t => sumIdx (dimsOf hV 1) (fun k => valV dl t 1 k)) 0
+                        (sumIdx (dimsOf hV 0) (fun i => elt gx i * dl i))).
+  { apply (bp_total_derivative thr draw rd hV 1%nat h' lg DV 0%nat dl gx (valV dl)
+             hV_rules_own hV_wf_heap eq_refl E).
+    - intros n Hn. rewrite hV_order in Hn. destruct Hn as [<-|[<-|[]]]; reflexivity.
+    - intros rv0 Hrv. cbn in Hrv. inversion Hrv. apply wf_vv.
+    - exact hV_jac.
+    - rewrite hV_order. right. left. reflexivity.
+    - exact Egx.
+    - intros n _ Hlt. lia.
+    - intros t i. unfold valV. ring.
+    - apply chain_hyp_of_nodes3. apply hV_nodes. }
+  change (dimsOf hV 1) with (@nil nat) in H. change (dimsOf hV 0) with [2%nat] in H.
+  rewrite sumIdx2 in H.
+  apply (is_derive_ext (fun t => sumIdx [] (fun k => valV dl t 1 k))); [|exact H].
+  intros t. rewrite sumIdx0. unfold valV. rewrite varN2. reflexivity.
+Qed.
+
+(* the gradient of the sample variance of (x0, x1) left on x is (x0 - x1, x1 - x0) *)
+Theorem var_gradient :
+  exists h' lg gx, bp_topo rd ids hV 1 = (h', lg, Ok tt) /\ gradOf h' 0 = Some gx /\
+    elt gx [0%nat] = x0 - x1 /\ elt gx [1%nat] = x1 - x0 /\
+    forall dl : assignment,
+      is_derive (fun t => ((x0 + t * dl [0%nat]) - (x1 + t * dl [1%nat])) ^ 2 / 2) 0
+                (elt gx [0%nat] * dl [0%nat] + elt gx [1%nat] * dl [1%nat]).
+Proof.
+  destruct hV_run as (h' & lg & E).
+  destruct (bp_topo_correct rd hV 1 h' lg hV_rules_own hV_wf_heap eq_refl E)
+    as (rv & ones & _ & _ & _ & _ & _ & _ & C7 & _).
+  assert (Hex : exists gx, gradOf h' 0 = Some gx).
+  { destruct (gradOf h' 0) as [gx|] eqn:Egx; [exists gx; reflexivity|].
+    exfalso. apply (C7 0%nat); [rewrite hV_order; right; left; reflexivity|exact Egx]. }
+  destruct Hex as (gx & Egx).
+  exists h', lg, gx. split; [exact E|]. split; [exact Egx|].
+  pose proof (var_total_derivative h' lg gx (indic [0%nat]) E Egx) as H0.
+  pose proof (var_total_derivative h' lg gx (indic [1%nat]) E Egx) as H1.
+  unfold indic in H0, H1.
+  change (idx_eqb [0%nat] [0%nat]) with true in *. change (idx_eqb [1%nat] [0%nat]) with false in *.
+  change (idx_eqb [0%nat] [1%nat]) with false in *. change (idx_eqb [1%nat] [1%nat]) with true in *.
+  split; [|split].
+  - apply is_derive_unique in H0.
+    replace (elt gx [0%nat]) with (elt gx [0%nat] * 1 + elt gx [1%nat] * 0) by ring.
+    rewrite <- H0. apply is_derive_unique. auto_derive; [exact I|field].
+  - apply is_derive_unique in H1.
+    replace (elt gx [1%nat]) with (elt gx [0%nat] * 0 + elt gx [1%nat] * 1) by ring.
+    rewrite <- H1. apply is_derive_unique. auto_derive; [exact I|field].
+  - intros dl. apply (var_total_derivative h' lg gx dl E Egx).
+Qed.
+
+End Var.
+
+(* ---------------------------------------------------------------------------------- *)
+(* 4d. y = x.MaxAlong(0)  for x : [2]  with x0 the unique maximum, ahead of x1 by more than the
+       equality threshold; gradient (1, 0).  (0 <= x0 because the real instance of the model starts
+       the running maximum from the placeholder 0 instead of -Inf, see Spec/RScalar.v) *)
+Section Mx.
+Hypotheses (Hthr : 0 <= thr) (Hsep : thr < x0 - x1) (Hnn : 0 <= x0).
+
+Definition xmv : tensor R := mkT [] (Sc (RP.maxL [x0; x1])).
+
+Definition hA : @heap R :=
+  [mkNode xv true false None [] None;
+   mkNode xmv true false None [(0%nat, RExtAlong 1 0 0)] None].
+
+Example hA_built :
+  let '(h0, x) := leaf [] xv true None in h_reduceAlong h0 RdMax x 0%Z None = (hA, Ok 1%nat).
+Proof. reflexivity. Qed.
+
+Example hA_order : topoOrder hA 1 = [1; 0]%nat.
+Proof. reflexivity. Qed.
+
+Example hA_run : exists h' lg, bp_topo rd ids hA 1 = (h', lg, Ok tt).
+Proof. eexists. eexists. vm_compute. reflexivity. Qed.
+
+Lemma hA_rules_own : rules_own hA.
+Proof.
+  intros c n e Hn He. destruct c as [|[|c]]; cbn in Hn.
+  - inversion Hn; subst n. destruct He.
+  - inversion Hn; subst n. destruct He as [<-|[]]. reflexivity.
+  - destruct c; discriminate.
+Qed.
+
+Lemma hA_wf_heap : wf_heap hA.
+Proof.
+  intros c n e Hn He. destruct c as [|[|c]]; cbn in Hn.
+  - inversion Hn; subst n. destruct He.
+  - inversion Hn; subst n. destruct He as [<-|[]]. cbn. lia.
+  - destruct c; discriminate.
+Qed.
+
+Lemma wf_xmv : wf xmv.
+Proof. split; cbn; [exact I|constructor]. Qed.
+
+(* the stored forward value is x0 *)
+Lemma xmv_val : elt xmv [] = x0.
+Proof.
+  unfold elt, xmv, RP.maxL. cbn.
+  destruct (Rgt_dec 0 x0) as [G1|G1]; [lra|]. destruct (Rgt_dec x0 x1) as [G2|G2]; [reflexivity|].
+  exfalso. apply G2. unfold Rgt. lra.
+Qed.
+
+Definition DA (c : nat) (e : nat * @rule R) (i j : list nat) : R :=
+  if idx_eqb (RP.del 0 i) j then (if (nth 0 i 0 =? 0)%nat then 1 else 0) else 0.
+
+Lemma hA_jac : jac_hyp thr draw rd hA 1 DA.
+Proof.
+  intros c e Hc He Ht hh gc Hv Hg Wg Dg. rewrite hA_order in Hc.
+  destruct Hc as [<-|[<-|[]]].
+  - destruct He as [<-|[]]. cbn [fst snd].
+    assert (Hx : valOf hh 0 = Some xv) by (rewrite Hv; reflexivity).
+    assert (Hy : valOf hh 1 = Some xmv) by (rewrite Hv; reflexivity).
+    destruct (VR.rext_eval thr draw rd hh 1%nat 0%nat 0%nat xv xmv gc Hx Hy Hg (wf_vec2 _ _) wf_xmv Wg
+                ltac:(cbn; lia) eq_refl Dg) as (g & Eg & Dgg & Wgg & Gg).
+    exists g. split; [exact Eg|]. split; [exact Dgg|]. split; [exact Wgg|].
+    intros i Hi. rewrite (Gg i Hi). change (dimsOf hA 1) with (@nil nat). rewrite sumIdx0.
+    change (dimsOf hA 0) with [2%nat] in Hi. unfold DA.
+    destruct (valid2 i Hi) as [-> | ->]; change (RP.del 0 [0%nat]) with (@nil nat);
+      change (RP.del 0 [1%nat]) with (@nil nat); rewrite xmv_val;
+      change (idx_eqb [] []) with true; cbn [nth Nat.eqb]; f_equal.
+    + change (elt xv [0%nat]) with x0. apply eqt_same. exact Hthr.
+    + change (elt xv [1%nat]) with x1. apply eqt_far.
+      rewrite Rabs_left by lra. lra.
+  - destruct He.
+Qed.
+
+Definition valA (dl : assignment) (t : R) (n : nat) : assignment :=
+  match n with
+  | 0%nat => fun i => elt xv i + t * dl i
+  | _ => fun j => VR.maxN 2 (VR.fib (fun i => elt xv i + t * dl i) 0 j)
+  end.
+
+Lemma hA_nodes (dl : assignment) n :
+  In n (topoOrder hA 1) -> (0 < n)%nat -> node_ok3 hA DA (valA dl) n.
+Proof.
+  intros Hn Hgt. rewrite hA_order in Hn. destruct Hn as [<-|[<-|[]]]; [|lia].
+  apply (ok3_extAlong hA DA (valA dl) 1 (0%nat, RExtAlong 1 0 0) 0%nat 1 (VR.maxN 2) (fun _ => 0%nat));
+    try reflexivity.
+  - left. reflexivity.
+  - apply VR.is_maxN_ext. apply VR.maxN_is_max. cbn. lia.
+  - cbn. lia.
+  - intros j Hj. change (dimsOf hA 1) with (@nil nat) in Hj. apply validIdx_nil in Hj. subst j.
+    cbn [fst]. change (nth 0 (dimsOf hA 0) 0%nat) with 2%nat. split; [lia|].
+    intros k Hk Hne. assert (k = 1%nat) by lia. subst k.
+    unfold valA. change (RP.ins 0 1%nat []) with [1%nat]. change (RP.ins 0 0%nat []) with [0%nat].
+    change (elt xv [0%nat]) with x0. change (elt xv [1%nat]) with x1. lra.
+Qed.
+
+Lemma max_total_derivative (h' : @heap R) lg gx (dl : assignment) :
+  bp_topo rd ids hA 1 = (h', lg, Ok tt) -> gradOf h' 0 = Some gx ->
+  is_derive (fun t => Rmax (x0 + t * dl [0%nat]) (x1 + t * dl [1%nat])) 0
+            (elt gx [0%nat] * dl [0%nat] + elt gx [1%nat] * dl [1%nat]).
+Proof.
+  intros E Egx.
+  assert (H : is_derive (fun t => sumIdx (dimsOf hA 1) (fun k => valA dl t 1 k)) 0
+                        (sumIdx (dimsOf hA 0) (fun i => elt gx i * dl i))).
+  { apply (bp_total_derivative thr draw rd hA 1%nat h' lg DA 0%nat dl gx (valA dl)
+             hA_rules_own hA_wf_heap eq_refl E).
+    - intros n Hn. rewrite hA_order in Hn. destruct Hn as [<-|[<-|[]]]; reflexivity.
+    - intros rv0 Hrv. cbn in Hrv. inversion Hrv. apply wf_xmv.
+    - exact hA_jac.
+    - rewrite hA_order. right. left. reflexivity.
+    - exact Egx.
+    - intros n _ Hlt. lia.
+    - intros t i. unfold valA. ring.
+    - apply chain_hyp_of_nodes3. apply hA_nodes. }
+  change (dimsOf hA 1) with (@nil nat) in H. change (dimsOf hA 0) with [2%nat] in H.
+  rewrite sumIdx2 in H.
+  apply (is_derive_ext (fun t => sumIdx [] (fun k => valA dl t 1 k))); [|exact H].
+  intros t. rewrite sumIdx0. reflexivity.
+Qed.
+
+(* the gradient of  max(x0, x1)  left on x is (1, 0) *)
+Theorem maxalong_gradient :
+  exists h' lg gx, bp_topo rd ids hA 1 = (h', lg, Ok tt) /\ gradOf h' 0 = Some gx /\
+    elt gx [0%nat] = 1 /\ elt gx [1%nat] = 0 /\
+    forall dl : assignment,
+      is_derive (fun t => Rmax (x0 + t * dl [0%nat]) (x1 + t * dl [1%nat])) 0
+                (elt gx [0%nat] * dl [0%nat] + elt gx [1%nat] * dl [1%nat]).
+Proof.
+  destruct hA_run as (h' & lg & E).
+  destruct (bp_topo_correct rd hA 1 h' lg hA_rules_own hA_wf_heap eq_refl E)
+    as (rv & ones & _ & _ & _ & _ & _ & _ & C7 & _).
+  assert (Hex : exists gx, gradOf h' 0 = Some gx).
+  { destruct (gradOf h' 0) as [gx|] eqn:Egx; [exists gx; reflexivity|].
+    exfalso. apply (C7 0%nat); [rewrite hA_order; right; left; reflexivity|exact Egx]. }
+  destruct Hex as (gx & Egx).
+  exists h', lg, gx. split; [exact E|]. split; [exact Egx|].
+  assert (P : forall d0 d1, is_derive (fun t => Rmax (x0 + t * d0) (x1 + t * d1)) 0 (1 * d0 + 0 * d1)).
+  { intros d0 d1. assert (Hlt : x1 < x0) by lra.
+    apply (curve_diff2_max_gt x0 x1 Hlt (fun t => x0 + t * d0) (fun t => x1 + t * d1)).
+    - ring.
+    - ring.
+    - auto_derive; [exact I|ring].
+    - auto_derive; [exact I|ring]. }
+  pose proof (max_total_derivative h' lg gx (indic [0%nat]) E Egx) as H0.
+  pose proof (max_total_derivative h' lg gx (indic [1%nat]) E Egx) as H1.
+  unfold indic in H0, H1.
+  change (idx_eqb [0%nat] [0%nat]) with true in *. change (idx_eqb [1%nat] [0%nat]) with false in *.
+  change (idx_eqb [0%nat] [1%nat]) with false in *. change (idx_eqb [1%nat] [1%nat]) with true in *.
+  split; [|split].
+  - apply is_derive_unique in H0. pose proof (is_derive_unique _ _ _ (P 1 0)) as G0.
+    rewrite G0 in H0. lra.
+  - apply is_derive_unique in H1. pose proof (is_derive_unique _ _ _ (P 0 1)) as G1.
+    rewrite G1 in H1. lra.
+  - intros dl. apply (max_total_derivative h' lg gx dl E Egx).
+Qed.
+
+End Mx.
+
 End Ex.
 End TotalDeriv3Example.
 
@@ -1071,3 +1439,5 @@ Print Assumptions TotalDeriv3Example.elmax_gradient.
 Print Assumptions TotalDeriv3Example.pow_gradient.
 Print Assumptions TotalDeriv3Example.cube_gradient.
 Print Assumptions TotalDeriv3Example.rpower_gradient.
+Print Assumptions TotalDeriv3Example.var_gradient.
+Print Assumptions TotalDeriv3Example.maxalong_gradient.
